@@ -41,6 +41,13 @@ def gen(rng, tier):
     big = tier == 'thorough' and rng.random() < 0.5
     lc = rng.random() < 0.1
     world = W.gen_world(rng, max_slabs=6 if big else 4, max_halos=12 if big else 6, max_parts=8 if big else 4, lc=lc)
+    bigspec = None
+    if rng.random() < 0.025 and not lc:
+        # a large catalogue, carried as its generator call (slabs of thousands of halos)
+        counts = [rng.choice([4096, 4097, 5000, 8192]) for _ in range(rng.randrange(1, 3))]
+        bigspec = {'gen': {'seed': rng.randrange(1 << 30), 'kwargs': {'halo_counts': counts, 'max_parts': 1,
+                                                                      'want_clean': rng.random() < 0.5}}}
+        world = W.materialize(bigspec)
     inds = [s['index'] for s in world['slabs']]
     kind = rng.choice(['zdir', 'list', 'list', 'list'])
     order = list(inds)
@@ -55,8 +62,13 @@ def gen(rng, tier):
     cols = rng.choice([['pos', 'vel', 'pid'], ['pid'], ['pos'], ['rv']])
     sub = {k: True for k in ab + cols} if ab else False
     allh = [h for s in world['slabs'] for h in s['halos']]
-    fkind = rng.choice(['none', 'ids', 'ids', 'N', 'N', 'all', 'nothing', 'nothing-in-one-slab'])
+    fkind = rng.choice(['none', 'ids', 'ids', 'N', 'N', 'all', 'nothing', 'nothing-in-one-slab', 'idmod'])
+    if bigspec:
+        fkind = rng.choice(['idmod', 'idmod', 'N', 'nothing-in-one-slab'])
     filt = {'kind': fkind}
+    if fkind == 'idmod':
+        filt['m'] = rng.choice([2, 3, 7])
+        filt['r'] = rng.randrange(filt['m'])
     if fkind == 'ids':
         filt['ids'] = sorted(h['raw']['id'] for h in allh if rng.random() < 0.5)
     elif fkind == 'N':
@@ -69,6 +81,8 @@ def gen(rng, tier):
         fields = rng.choice(['DEFAULT_FIELDS', 'all', ['index_halo', 'N'], ['index_halo', 'N', 'x_L2com', 'r50_L2com']])
         if fkind == 'ids':
             filt = {'kind': 'lcids', 'ids': sorted(h['raw']['index_halo'] for h in allh if rng.random() < 0.5)}
+    if bigspec:
+        world = bigspec
     return {'world': world, 'knobs': C.gen_knobs(rng), 'path': {'kind': kind, 'order': order, 'as_path': rng.random() < 0.5},
             'cleaned': cleaned, 'subsamples': sub, 'AB': ab, 'filter': filt, 'fields': fields,
             'negative': None if lc else rng.choice([None, None, 'duplicate', 'mixed'])}
@@ -84,6 +98,8 @@ def _keep_model(world, case):
             n = h['clean']['N_total'] if (case['cleaned'] and not world.get('lc')) else h['raw']['N']
             if f['kind'] in ('none', 'all'):
                 k = True
+            elif f['kind'] == 'idmod':
+                k = h['raw']['index_halo' if world.get('lc') else 'id'] % f['m'] == f['r']
             elif f['kind'] == 'ids':
                 k = h['raw']['id'] in f['ids']
             elif f['kind'] == 'lcids':
@@ -108,6 +124,9 @@ def _filter_func(case, world):
     if f['kind'] == 'ids':
         ids = np.array(f['ids'], dtype=np.uint64)
         return lambda h: np.isin(np.asarray(h['id']), ids)
+    if f['kind'] == 'idmod':
+        col = 'index_halo' if world.get('lc') else 'id'
+        return lambda h: (np.asarray(h[col]).astype(np.int64) % f['m']) == f['r']
     if f['kind'] == 'lcids':
         ids = np.array(f['ids'], dtype=np.int64)
         return lambda h: np.isin(np.asarray(h['index_halo']), ids)
@@ -142,7 +161,11 @@ def run(case):
     from e2_world import world as W
     from e2_world import catalog as C
     out = new_outcome()
-    world, knobs = case['world'], case['knobs']
+    world, knobs = W.materialize(case['world']), case['knobs']
+    big = 'gen' in case['world']
+    if big:
+        knobs = dict(knobs, prelude_seed=None, compression=None if knobs.get('cbs', 0) < 1024 else knobs.get('compression'))
+        bump(out['probes'], 'large-catalogue')
     with C.scratch() as root:
         gd, written = W.write_world(world, root, knobs)
         C.prelude(world, knobs, root, out['faults'])
@@ -151,6 +174,9 @@ def run(case):
         kw = dict(cleaned=case['cleaned'] or lc, subsamples=copy.deepcopy(case['subsamples']), fields=copy.deepcopy(case['fields']))
         # the index columns needed for subsamples are added automatically only for cleaned loads (that is C02's
         # business); keep C03 independent of it by requesting them explicitly for field subsets
+        idcol = 'index_halo' if world.get('lc') else 'id'
+        if isinstance(kw['fields'], list) and case['filter']['kind'] == 'idmod' and idcol not in kw['fields']:
+            kw['fields'].append(idcol)
         if isinstance(kw['fields'], list) and case['AB']:
             for AB in case['AB']:
                 kw['fields'] += ['npstart' + AB, 'npout' + AB]
@@ -182,7 +208,7 @@ def run(case):
                 violation(out, bad[0], site + '.subsamples', bad[1])
                 return out
         # ---- each file alone; combined == concatenation
-        if len(order) > 1:
+        if len(order) > 1 and not big:
             singles = []
             for i in order:
                 s_arg, _ = C.path_argument(world, gd, {'kind': 'file', 'order': [i]})
@@ -282,6 +308,12 @@ def run(case):
 
 def shrink(case):
     from .c01 import shrink as s01
+    if 'gen' in case['world']:
+        if case['negative']:
+            yield dict(case, negative=None)
+        if case['AB']:
+            yield dict(case, AB=[], subsamples=False)
+        return
     base = dict(case)
     base.setdefault('unpack_bits', False)
     base.setdefault('passthrough', False)
